@@ -1153,6 +1153,16 @@ fn judge_deliver(
         }
     }
 
+    // -------- C11 / C12: the time rules are evaluated against a reading taken for THIS parse
+    for (site, pp) in [("STALE:parser_exp", "C11"), ("STALE:parser_nbf", "C12")] {
+        if v.default_validators && v.layer == Layer::Batteries {
+            let stale = main.reads.iter().any(|r| r.0 == site);
+            if stale || ndeliv > 1 {
+                cx.clause(pp, "clock_is_read_for_each_parse", idx, !stale, "a fresh wall-clock reading per parse", "the reading handed to the clock seam is the one of an earlier parse (or of construction) although the wall clock has advanced".into(), &[("entry", vname.clone())]);
+            }
+        }
+    }
+
     // -------- C07: whatever the body is, a header that names another protocol is refused
     if let Some(tp) = Proto::from_header_prefix(&m.text) {
         if tp != v.proto {
